@@ -34,6 +34,7 @@ func jobsFor(prop, tier string) []Job {
 		js = []Job{
 			mk("c01-n3-drain", params("N", 3, "KEYS", 2, "DRAIN", 1, "L0MAX", 2), false, 0),
 			mk("c01-n2-drain-ops2-k3", params("N", 2, "KEYS", 3, "DRAIN", 1, "OPS2", 1, "KINDS", 3), false, 0),
+			mk("c01-n3-ops2-k3-l0t2", params("N", 3, "KEYS", 3, "DRAIN", 1, "OPS2", 1, "KINDS", 2, "L0MIN", 2, "L0MAX", 2, "IBMAX", 0, "BLKMAX", 0, "K0", 2), false, 0),
 			mk("c01-n3-lazy", params("N", 3, "KEYS", 2, "DRAIN", 0, "K0", 1, "IBMAX", 2), false, 0),
 			mk("c01-n3-eager", params("N", 3, "KEYS", 2, "DRAIN", 0, "K0", 3), true, 0),
 		}
@@ -57,6 +58,12 @@ func jobsFor(prop, tier string) []Job {
 			mk("c02-n3-1cycle", params("N", 3, "CYCLES", 1, "KEYS", 2, "BLKMAX", 0), false),
 			mk("c02-n3-1cycle-drain", params("N", 3, "CYCLES", 1, "KEYS", 2, "K0", 1, "DRAIN", 1, "IBMAX", 0), true),
 			mk("c02-n2-2cycles", params("N", 2, "CYCLES", 2, "KEYS", 2, "K0", 3, "BLKMAX", 0), true),
+			func() Job {
+				j := mk("c02-manyfiles", params("N", 12, "L0T", 12), false)
+				j.Fn = "VH_C02_ManyFiles"
+				j.Bounds = map[string]any{"tables_in_L0_before_reopen": 12, "then": "reopen, 2 more flushes, compaction of 14 tables, reopen", "keys": "concrete keya..keyn", "values": "symbolic bytes"}
+				return j
+			}(),
 		}
 		if thorough {
 			js = append(js, mk("c02-n4-2cycles", params("N", 4, "CYCLES", 2, "KEYS", 2, "IBMAX", 2), true),
@@ -92,6 +99,7 @@ func jobsFor(prop, tier string) []Job {
 				return j
 			}(),
 		}
+		js = append(js, mk("crash-w1-2crashes", params("W", 1, "MEMTHR", 60), 2, false, false, 0))
 		if thorough {
 			js = append(js, mk("crash-w2", params("W", 2), 1, tears, false, 0),
 				mk("crash-w0-2crashes", params("W", 0), 2, false, false, 0),
@@ -108,13 +116,28 @@ func jobsFor(prop, tier string) []Job {
 		js = []Job{
 			mk("txn-2-core", params("NT", 2, "LIB0", 0, "LIB", 5, "K0", 0, "IBMAX", 0, "BLKMAX", 0)),
 			mk("txn-2-rw-del", params("NT", 2, "LIB0", 3, "LIB", 4, "K0", 2, "IBMAX", 0, "BLKMAX", 0, "REOPEN", 0)),
-			mk("txn-1-misuse", params("NT", 1, "LIB0", 7, "LIB", 4, "K0", 3, "UPDATEERR", 1)),
+			mk("txn-1-misuse", params("NT", 1, "LIB0", 7, "LIB", 5, "K0", 3, "UPDATEERR", 1)),
 			mk("txn-2-updateerr", params("NT", 2, "LIB0", 2, "LIB", 2, "K0", 1, "UPDATEERR", 1, "IBMAX", 0, "BLKMAX", 0)),
+			mk("txn-2-extracommit", params("NT", 2, "LIB0", 3, "LIB", 2, "K0", 0, "EXTRA", 1, "IBMAX", 0, "BLKMAX", 0, "REOPEN", 0)),
 		}
 		if thorough {
 			js = append(js, mk("txn-3-short", params("NT", 3, "LIB0", 0, "LIB", 5, "K0", 1, "BLKMAX", 0, "IBMAX", 0, "REOPEN", 0)),
-				mk("txn-2-all", params("NT", 2, "LIB", 11, "K0", 3, "IBMAX", 0, "BLKMAX", 0)),
+				mk("txn-2-all", params("NT", 2, "LIB", 12, "K0", 3, "IBMAX", 0, "BLKMAX", 0)),
 				mk("txn-2-core-nodrain", params("NT", 2, "LIB0", 0, "LIB", 7, "K0", 0, "DRAIN", 0)))
+		}
+		if prop == "C06" || prop == "C07" || prop == "C05" {
+			// true goroutine concurrency of two conflicting transactions
+			cj := Job{Name: "txn-conc2-dev1", Pkg: "", Fn: "VH_CONC2", Inits: true, Samples: 3, Sched: true, MaxDev: 1, Replay: "gated", Params: params("MEMTHR", 1000),
+				Bounds:  map[string]any{"goroutines": "2 read-modify-write transactions on one key + the harness reader + engine background goroutines", "schedules": "all picks at blocking points + 1 preemption (thorough: 2)", "values": "symbolic, pairwise distinct"},
+				Assumes: []string{"Go memory model for the sync primitives as modelled by the cooperative runtime", "utils.Hash exact on concrete keys"},
+				Outside: []string{"more than two concurrent read-write transactions", "more preemptions than the bound"}}
+			js = append(js, cj)
+			if thorough {
+				cj2 := cj
+				cj2.Name, cj2.MaxDev = "txn-conc2-dev2-rotating", 2
+				cj2.Params = params("MEMTHR", 20, "IBMAX", 1)
+				js = append(js, cj2)
+			}
 		}
 		defer func() {
 			for i := range js {
@@ -148,6 +171,13 @@ func jobsFor(prop, tier string) []Job {
 		js = []Job{
 			mk("conc-1w2c-dev1", params("WRITERS", 1, "COMMITS", 2, "IBMAX", 1), 1, false),
 			mk("conc-1w2c-eager", params("WRITERS", 1, "COMMITS", 2, "IBMAX", 2), 0, true),
+			mk("conc-1w2c-afterack-dev1", params("WRITERS", 1, "COMMITS", 2, "IBMAX", 0, "AFTERACK", 1), 1, false),
+		}
+		if prop == "C12" {
+			cj := mk("conc2-rmw-dev1", params("MEMTHR", 1000), 1, false)
+			cj.Fn = "VH_CONC2"
+			cj.OnlyAsserts = []string{"C05.", "C06.", "C07."}
+			js = append(js, cj)
 		}
 		if thorough {
 			js = append(js, mk("conc-1w2c-dev2", params("WRITERS", 1, "COMMITS", 2, "IBMAX", 2), 2, false),
@@ -162,7 +192,7 @@ func jobsFor(prop, tier string) []Job {
 				Outside: []string{"more tables/entries/rounds than the listed configurations (3x3 is out of reach)", "user keys longer than 2 bytes"}}
 		}
 		js = []Job{
-			mk("c09-1r-2+1", params("R", 1, "T", 2, "ES", 21, "L0T", 1, "RATIO", 2)),
+			mk("c09-1r-2+1", params("R", 1, "T", 2, "ES", 21, "L0T", 1, "RATIO", 2, "KL2", 1)),
 			mk("c09-1r-1+2-blk64", params("R", 1, "T", 2, "ES", 12, "L0T", 1, "RATIO", 2, "BLK", 64)),
 			mk("c09-2r-cascade-recover", params("R", 2, "T", 1, "E", 2, "E2", 1, "L0T", 0, "RATIO", 1, "RECOVER", 1)),
 		}
@@ -189,6 +219,7 @@ func jobsFor(prop, tier string) []Job {
 			mk("c10-2x2", params("T", 2, "E", 2)),
 			mk("c10-3x1-recover", params("T", 3, "E", 1, "RECOVER", 1, "KL2", 1)),
 			mk("c10-2x1-ts99", params("T", 2, "E", 1, "MAXTS", 99)),
+			mk("c10-2x2-levels", params("T", 2, "E", 2, "LEVELS", 2)),
 		}
 		if thorough {
 			js = append(js,
@@ -196,6 +227,7 @@ func jobsFor(prop, tier string) []Job {
 				mk("c10-2x2-k2", params("T", 2, "E", 2, "KL2", 2, "QKL", 2)),
 				mk("c10-2x3", params("T", 2, "E", 3)),
 				mk("c10-2x2-recover", params("T", 2, "E", 2, "RECOVER", 1)),
+				mk("c10-3x1-levels3-recover", params("T", 3, "E", 1, "LEVELS", 3, "RECOVER", 1)),
 			)
 		}
 	case "DBG":
@@ -266,6 +298,7 @@ func jobsFor(prop, tier string) []Job {
 			mk("c16-n4-lens", params("N", 4, "KL", 0, "STEP", 3)),
 			mk("c16-n2-decode", params("N", 2, "KL", 5, "STEP", 4, "DECODE", 1)),
 			mk("c16-n100-sym2", params("N", 100, "KL", 7, "STEP", 1, "SYM", 2)),
+			mk("c16-n3-nonmember", params("N", 3, "KL", 2, "STEP", 3, "NONMEMBER", 1)),
 		}
 		if thorough {
 			js = append(js,
